@@ -13,7 +13,7 @@ import (
 func init() {
 	register(&Prop{
 		ID: "C06", Level: "exploration",
-		Rule: "one case = (a) a writer task parked at one stage of a write transaction's life - lock just taken, root loaded, after k uncommitted writes, inside an Updates function, after Snapshot()/Iter(), after Truncate (all methods or one), at commit, before the store, after the store with the lock still held, before unlock - while 1-4 reader tasks run 1-3 read entry points each to completion (ServeHTTP incl. trailing-slash/404/405/OPTIONS answers and handlers that read the router, Lookup+Close, Reverse, Has, Route, Len, Iter.All/Methods/Prefix/Routes/Reverse, read-only Txn with Commit/Abort and Snapshot, a read-only Txn that outlived two commits used for 36-99 lookups, View, Stats, NewRoute); the writer is released only after every reader finished, so a reader that needs the writer lock shows up as lock-waiting (instrumented Lock) or as a goroutine blocked in a sync primitive (stall detector), both violations; or (b) the converse: readers parked mid-iteration / holding a Lookup context / inside a handler / inside View while 1-2 writers must run to completion. Router options are drawn per run; one run in six works on a tree deeper than 25 levels (iterators then size their stack from the tree depth). Non-trivial: at least one reader ran while the writer was parked (a) or a writer committed while a reader was parked (b); distinct = hash of (stage, reader programs, schedule).",
+		Rule: "one case = (a) a writer task parked at one stage of a write transaction's life - lock just taken, root loaded, after k uncommitted writes, inside an Updates function, after Snapshot()/Iter(), after Truncate (all methods or one), at commit, before the store, after the store with the lock still held, before unlock - while 1-4 reader tasks run 1-3 read entry points each to completion (ServeHTTP incl. trailing-slash/404/405/OPTIONS answers, a slow client that parks the request inside the write of whichever handler answers, and handlers that read the router, Lookup+Close, Reverse, Has, Route, Len, Iter.All/Methods/Prefix/Routes/Reverse, read-only Txn with Commit/Abort and Snapshot, a read-only Txn that outlived two commits used for 36-99 lookups, View, Stats, NewRoute); the writer is released only after every reader finished, so a reader that needs the writer lock shows up as lock-waiting (instrumented Lock) or as a goroutine blocked in a sync primitive (stall detector), both violations; or (b) the converse: readers parked mid-iteration / holding a Lookup context / inside a handler / inside View while 1-2 writers must run to completion. Router options are drawn per run; one run in six works on a tree deeper than 25 levels (iterators then size their stack from the tree depth). Non-trivial: at least one reader ran while the writer was parked (a) or a writer committed while a reader was parked (b); distinct = hash of (stage, reader programs, schedule).",
 		Run:  runC06, Quick: 96000, Thorough: 16000000,
 		Real: commonReal, Stub: commonStub,
 		Domain:      []string{"the static half of the quantifier (every call path reachable in the call graph) is static analysis and is not done; reach is dynamic: every public read entry point is driven"},
@@ -21,7 +21,7 @@ func init() {
 	})
 }
 
-var c06Reads = []string{"serve", "serve_inner", "lookup", "reverse", "has", "route", "len", "iter_all", "iter_methods", "iter_prefix", "iter_routes", "iter_reverse", "rotxn", "rotxn_stale", "rotxn_snapshot", "view", "stats", "newroute", "clone"}
+var c06Reads = []string{"serve", "serve_slowclient", "serve_inner", "lookup", "reverse", "has", "route", "len", "iter_all", "iter_methods", "iter_prefix", "iter_routes", "iter_reverse", "rotxn", "rotxn_stale", "rotxn_snapshot", "view", "stats", "newroute", "clone"}
 
 func (cw *concWorld) c06Read(s *sim.Sched, kind string, a, b int, park func()) {
 	k := cw.keys[a%len(cw.keys)]
@@ -30,6 +30,22 @@ func (cw *concWorld) c06Read(s *sim.Sched, kind string, a, b int, park func()) {
 	switch kind {
 	case "serve":
 		cw.w.Serve(pr, "", "", func(c fox.Context, h *world.Hit) { s.Yield(sim.PtHandler); park() })
+	case "serve_slowclient":
+		// the client takes its time to accept the response: the request is parked inside whatever writes the answer -
+		// the route handler or one of the router's own handlers (redirect, 404, 405, OPTIONS)
+		once := false
+		slow := func() {
+			if !once {
+				once = true
+				s.Yield(sim.PtHandler)
+				park()
+			}
+		}
+		cw.w.ConnHook = func(c *world.Conn) { c.OnHeader, c.OnWrite = slow, slow }
+		cw.w.Serve(pr, "", "", nil)
+		if !once {
+			park()
+		}
 	case "serve_inner":
 		cw.w.Serve(pr, "", "", func(c fox.Context, h *world.Hit) {
 			s.Yield(sim.PtHandler)
